@@ -16,7 +16,7 @@ MANIFEST = {
             'commits is shut down at that step and can only return as a fresh process (its address is reused only after every running node has dropped it). After every step: the C01/C03/C04 monitors run with the committing/elected node\'s own member set as the voting set; on a node whose log is not '
             'compacted the member set must equal the fold of the membership commands currently in its log over its constructor set; a leader must not append a membership entry while an earlier one in its log is uncommitted or before '
             'an entry of its own term is committed. After a quiet closing phase all members hold the same member set, equal to the fold of the committed membership commands.',
-    'note': 'The step-wise fold check is skipped on nodes that compacted or installed a snapshot (end-state agreement still checked); majority monitors use each node\'s own view of the voters; network model of pvf/sim.',
+    'note': 'On a node whose log is compacted (own compaction or installed snapshot) the fold starts from the fold of the committed membership commands below its log start (skipped only if the ghost table has a hole there); a macro step lets a cut-off leader accept a change, compact and send the snapshot to a laggard before it is deposed; majority monitors use each node\'s own view of the voters; network model of pvf/sim.',
 }
 LEVEL = 'exploration'
 RULE = ('case = (1-5 initial voters of 8 possible, configuration, step list <=220 with addnode/remnode ops through API or admin path). '
